@@ -119,7 +119,9 @@ def gen_model_text(rng):
     ptxt = '[Pair]\n' + ''.join('%s-%s : %s\n' % (a, b, rng.choice(pdefs)) for (a, b) in pairs)
     if kind in ('pair', 'excel'):
         target = rng.choice(['LAMMPS', 'GULP', 'DL_POLY']) if kind == 'pair' else 'excel'
-        t = '[Tabulation]\ntarget : %s\nnr : 8\ncutoff : 3.5\n' % target + forms + ptxt
+        # some models leave the grid to the documented defaults (1001 rows to 10.0): they must not inherit another model's grid
+        grid = 'nr : 8\ncutoff : 3.5\n' if (kind == 'excel' or rng.random() < 0.85) else rng.choice(['', 'cutoff : 3.5\n', 'nr : 8\n'])
+        t = '[Tabulation]\ntarget : %s\n' % target + grid + forms + ptxt
         return {'text': t, 'npots': len(pairs)}
     fs = kind == 'fs'
     target = {'eam': rng.choice(['setfl', 'DL_POLY_EAM']), 'fs': rng.choice(['setfl_fs', 'DL_POLY_EAM_fs']), 'excel_eam': 'excel_eam'}[kind]
@@ -276,7 +278,12 @@ def corpus():
     c2 = {'kind': 'seeds', 'text': under, 'seeds': [0, 1, 2, 31337]}
     c3 = {'kind': 'history', 'models': [{'text': under, 'npots': 2}], 'seed': 7,
           'ops': [['build', 0], ['eval', 0, 1, 2], ['eval', 0, 1, 1], ['eval', 0, 1, 0], ['eval', 0, 1, 1], ['write', 0], ['eval', 0, 1, 1], ['build', 0], ['eval', 1, 1, 1], ['write', 1], ['write', 0]]}
-    return [c1, c2, c3]
+    # a model that leaves its grid to the documented defaults, built after a model of the same family that sets it
+    ga = '[Tabulation]\ntarget : GULP\nnr : 8\ncutoff : 2.0\n[Pair]\nAl-Al : as.constant 1.0\n'
+    gb = '[Tabulation]\ntarget : GULP\n[Pair]\nAl-Al : as.constant 2.0\n'
+    c4 = {'kind': 'history', 'models': [{'text': ga, 'npots': 1}, {'text': gb, 'npots': 1}], 'seed': 3,
+          'ops': [['build', 0], ['write', 0], ['build', 1], ['write', 1], ['eval', 1, 0, 1], ['write', 0]]}
+    return [c1, c2, c3, c4]
 
 def correspond(ctx):
     rng = ctx['rng']
